@@ -309,7 +309,15 @@ public:
     }
 
     /** outputs number of discrete elements of T in range*/
-    constexpr uint32_t size() const { return empty() ? 0 : 1 + (finish - start); }
+    constexpr uint32_t size() const
+    {
+        if (empty())
+            return 0;
+        if constexpr (std::is_integral_v<T>)  // the difference may not fit into T (e.g. [INT_MIN,0])
+            return 1u + (static_cast<uint32_t>(finish) - static_cast<uint32_t>(start));
+        else
+            return 1 + (finish - start);
+    }
 
     constexpr T first() const { return start; }
     constexpr T last() const { return finish; }
